@@ -38,6 +38,9 @@
 (*        handler aborts too; with a record of another kind a second       *)
 (*        record is added (C05, C14)                                       *)
 (*   S16  see ClientStore (C18)                                            *)
+(*   S18  a retrier is started for a tower already proven misbehaving (a   *)
+(*        handler that copied the statuses earlier asked for it): the      *)
+(*        status is overwritten and the tower is sent to again (C14)       *)
 (* A state remembers in c.dev which deviations were needed to reach it.    *)
 (***************************************************************************)
 EXTENDS ClientStore, Sequences, TLC
@@ -54,9 +57,15 @@ RegClasses == {"accept", "garbage", "badsig", "malsig"}
 
 Dev(d) == d \in DEVIATIONS
 
+\* Time (trace validation): hidden steps happen between the previous logged event (tm.prev) and this one (tm.now).
+\*   minb  minimal back-off before the next attempt        wake  minimal idle time before the automatic retry
+Tm0 == [minb |-> 0, prev |-> 0, now |-> 0, wake |-> 0]
+
 RetAbsent == [s |-> "absent", pend |-> {}, pc |-> "-", cur |-> NoLoc, rep |-> NoRep, seq |-> 0,
               nf |-> 0,      \* answers without progress since the last back-off wait (C13 NoFlood)
-              nbf |-> 0]     \* earliest time of the next request (trace validation only; 0 in model checking)
+              \* times (ms; trace validation only, all 0 in model checking)
+              nbf |-> 0,     \* earliest time of the next request / of the automatic wake-up
+              ft |-> 0]      \* time of the last failed attempt
 
 InitClient ==
     [st |-> EmptyStore,
@@ -80,7 +89,6 @@ InitClient ==
 -----------------------------------------------------------------------------
 (* Store helpers on top of ClientStore                                     *)
 
-S(c) == c.st
 Known(c, t) == t \in MemKnown(c.st)
 Status(c, t) == Mem(c.st, t).status
 HasRcpt(db, t, l) == \E r \in db.rcpts : r.t = t /\ r.l = l
@@ -124,10 +132,20 @@ Record(c, t, l, kind, slots) ==
                THEN (IF SameRow(st.db, t, l, kind) THEN {Poison(st)} ELSE {OkDev(AddKind(st, t, l, kind, slots), "S15")})
                ELSE {})
 
+\* the first proof against a tower is the one that is kept
+Flag(st, t, l) == IF HasProof(st.db, t) THEN st ELSE FlagMisbehaving(st, t, l)
+
 \* send_to_retrier: only a retrier that does not exist yet or is running is told
 Tell(c, t, l) == IF c.inmap[t] \in {"none", "running"} THEN c.chan \cup {[t |-> t, k |-> "fresh", ls |-> {l}]} ELSE c.chan
 
 Done(c, t, l) == IF Known(c, t) THEN c.done \cup {<<t, l>>} ELSE c.done
+
+\* The status of a tower proven misbehaving is final.  S18: the code overwrites it (a handler or a retrier that read the
+\* status earlier goes on as if nothing had happened).
+SetSt(c, t, s) ==
+    IF Known(c, t) /\ Status(c, t) = "misbehaving" /\ s # "misbehaving"
+    THEN (IF Dev("S18") THEN [c EXCEPT !.st = SetStatus(@, t, s), !.dev = @ \cup {"S18"}] ELSE c)
+    ELSE [c EXCEPT !.st = SetStatus(@, t, s)]
 
 MaxDied == 3
 Die(c) == [c EXCEPT !.died = IF @ < MaxDied THEN @ + 1 ELSE @]
@@ -162,9 +180,10 @@ NotAfter(c, n, t, o, chan2, devs) ==
 
 \* could not deliver: keep the data for the retrier; why = "conn" | "sub" | "keep"
 NotPending(c, n, t, why, tell, devs) ==
-    LET c1 == IF why = "conn" THEN [c EXCEPT !.st = SetStatus(@, t, "temporary_unreachable")]
-              ELSE IF why = "sub" THEN [c EXCEPT !.st = SetStatus(@, t, "subscription_error")] ELSE c
-    IN {NotAfter(c, n, t, o, IF tell /\ Known(c, t) /\ Ref(t, n.l) \in o.st.db.pend THEN Tell(c, t, n.l) ELSE c.chan, devs) :
+    LET c1 == IF why = "conn" THEN SetSt(c, t, "temporary_unreachable")
+              ELSE IF why = "sub" THEN SetSt(c, t, "subscription_error") ELSE c
+    IN {NotAfter(c, n, t, o, IF tell /\ Known(c, t) /\ Ref(t, n.l) \in o.st.db.pend THEN Tell(c, t, n.l) ELSE c.chan,
+                 devs \cup c1.dev) :
             o \in Record(c1, t, n.l, "pending", 0)}
 
 \* a step of the handler that needs no tower: towers that are not reachable (by the copy) and refused connections
@@ -196,10 +215,11 @@ NotifyRecv(c, n) ==
             [] r.cls = "reject" -> {NotAfter(c, n, t, o, c.chan, {}) : o \in Record(c, t, l, "invalid", 0)}
             [] r.cls = "badsig" ->
                  \* the receipt signed by somebody else is kept as the proof; the tower is not used any more
-                 ((IF Known(c, t) /\ HasRcpt(c.st.db, t, l) /\ Dev("S15")
+                 \* (S15: a receipt row for (t, l) or a proof row for t exists already: the insert fails)
+                 ((IF Known(c, t) /\ (HasRcpt(c.st.db, t, l) \/ HasProof(c.st.db, t)) /\ Dev("S15")
                    THEN {NotAfter(c, n, t, Poison(c.st), c.chan, {})}
                    ELSE {})
-                  \cup {NotAfter(c, n, t, Ok(FlagMisbehaving(c.st, t, l)), c.chan, {})})
+                  \cup {NotAfter(c, n, t, Ok(Flag(c.st, t, l)), c.chan, {})})
             [] r.cls = "garbage" ->
                  (NotPending(c, n, t, "conn", TRUE, {})
                   \cup {NotAfter(c, n, t, o, c.chan, {}) : o \in Record(c, t, l, "invalid", 0)}
@@ -207,7 +227,7 @@ NotifyRecv(c, n) ==
             [] r.cls = "malsig" ->
                  (NotPending(c, n, t, "conn", TRUE, {})
                   \cup {NotAfter(c, n, t, o, c.chan, {}) : o \in Record(c, t, l, "invalid", 0)}
-                  \cup {NotAfter(c, n, t, Ok(FlagMisbehaving(c.st, t, l)), c.chan, {})})
+                  \cup {NotAfter(c, n, t, Ok(Flag(c.st, t, l)), c.chan, {})})
             [] OTHER -> {})
     \cup (IF r.cls = "malsig" /\ Dev("S14") /\ ~c.poisoned
           THEN {[NotDies(c, n) EXCEPT !.dev = @ \cup {"S14"}]}      \* aborts outside the mutex
@@ -231,7 +251,7 @@ RegSend(c, g, seq) == SetReg(c, g, [g EXCEPT !.pc = "wait", !.seq = seq])
 RegRefused(c, g) ==
     IF g.pc # "new" \/ c.up[g.t] THEN {}
     ELSE IF c.poisoned THEN {Die([c EXCEPT !.regs = @ \ {g}])}
-    ELSE {[SetReg(c, g, [g EXCEPT !.pc = "err"]) EXCEPT !.st = IF Known(c, g.t) THEN SetStatus(@, g.t, "temporary_unreachable") ELSE @]}
+    ELSE {SetReg(IF Known(c, g.t) THEN SetSt(c, g.t, "temporary_unreachable") ELSE c, g, [g EXCEPT !.pc = "err"])}
 
 \* C14 RegRecorded: only a receipt that verifies under the tower id and strictly extends what is known is recorded
 RegApply(st, t, r) ==
@@ -277,18 +297,21 @@ MgrDrop(c, t) ==
     ELSE {}
 
 \* ... start those that have
-MgrStart(c, t) ==
+MgrStart(c, t, tm) ==
     LET r == c.rt[t] IN
     IF ~c.mgr \/ c.chan # {} \/ r.s # "stopped" \/ r.pend = {} THEN {}
     ELSE IF c.poisoned THEN {MgrDies(c)}
     ELSE IF ~Known(c, t) THEN {[c EXCEPT !.rt[t] = RetAbsent]}
-    ELSE {[c EXCEPT !.st = IF Status(c, t) = "subscription_error" THEN @ ELSE SetStatus(@, t, "temporary_unreachable"),
-                    !.rt[t].s = "running", !.rt[t].pc = "begin", !.rt[t].nf = 0, !.rt[t].nbf = 0,
-                    !.inmap[t] = "running", !.ntask[t] = @ + 1]}
+    \* a tower proven misbehaving is not retried (a handler working on an older copy of the statuses may still have
+    \* asked for it).  S18: the code starts the loop and overwrites the status.
+    ELSE IF Status(c, t) = "misbehaving" /\ ~Dev("S18") THEN {[c EXCEPT !.rt[t] = RetAbsent]}
+    ELSE {[(IF Status(c, t) = "subscription_error" THEN c ELSE SetSt(c, t, "temporary_unreachable"))
+           EXCEPT !.rt[t].s = "running", !.rt[t].pc = "begin", !.rt[t].nf = 0, !.rt[t].nbf = 0, !.rt[t].ft = 0, !.rt[t].seq = 0,
+                  !.inmap[t] = "running", !.ntask[t] = @ + 1]}
 
 \* ... and wake the idle ones whose delay has elapsed (pending data is reloaded from disk)
-MgrWake(c, t) ==
-    IF ~c.mgr \/ c.chan # {} \/ c.rt[t].s # "idle" THEN {}
+MgrWake(c, t, tm) ==
+    IF ~c.mgr \/ c.chan # {} \/ c.rt[t].s # "idle" \/ tm.now < c.rt[t].nbf THEN {}
     ELSE IF c.poisoned THEN {MgrDies(c)}
     ELSE {[c EXCEPT !.rt[t].s = "stopped", !.rt[t].pend = @ \cup PendOf(c.st.db, t), !.inmap[t] = "none"]}
 
@@ -303,23 +326,26 @@ RunDies(c, t) == [Die(c) EXCEPT !.rt[t].pc = "dead", !.ntask[t] = IF @ > 0 THEN 
 RunBegin(c, t) ==
     IF ~Running(c, t) \/ c.rt[t].pc # "begin" THEN {}
     ELSE IF c.poisoned THEN {RunDies(c, t)}
-    ELSE IF ~Known(c, t) THEN {[c EXCEPT !.rt[t].pc = "end_gone"]}
+    ELSE IF ~Known(c, t) \/ (Status(c, t) = "misbehaving" /\ ~Dev("S18")) THEN {[c EXCEPT !.rt[t].pc = "end_gone"]}
     ELSE {[c EXCEPT !.rt[t].pc = IF Status(c, t) = "subscription_error" THEN "reg" ELSE "loop"]}
 
 \* what the loop would send next: a registration renewal or one of its pending appointments
 RunCanSendReg(c, t, now) == Running(c, t) /\ c.rt[t].pc = "reg" /\ now >= c.rt[t].nbf
 Sendable(c, t, l) == l \in c.st.db.bodies /\ Ref(t, l) \in c.st.db.pend
+\* nothing is sent to a tower proven misbehaving (S18: the loop does not look)
+Stopped(c, t) == Known(c, t) /\ Status(c, t) = "misbehaving" /\ ~Dev("S18")
 RunCanSendAdd(c, t, l, now) == /\ Running(c, t) /\ c.rt[t].pc = "loop" /\ l \in c.rt[t].pend /\ Sendable(c, t, l)
-                               /\ ~c.poisoned /\ now >= c.rt[t].nbf
+                               /\ ~c.poisoned /\ now >= c.rt[t].nbf /\ ~Stopped(c, t)
 
-RunSendReg(c, t, seq) == [c EXCEPT !.rt[t].pc = "regwait", !.rt[t].seq = seq]
+RunSendReg(c, t, seq) == [c EXCEPT !.rt[t].pc = "regwait", !.rt[t].seq = seq, !.rt[t].nbf = 0, !.rt[t].ft = 0]
 RunSendAdd(c, t, l, seq) ==
-    [c EXCEPT !.rt[t].pc = "wait", !.rt[t].cur = l, !.rt[t].seq = seq,
-              !.sentMis = IF HasProof(c.st.db, t) THEN @ \cup {t} ELSE @]
+    [c EXCEPT !.rt[t].pc = "wait", !.rt[t].cur = l, !.rt[t].seq = seq, !.rt[t].nbf = 0, !.rt[t].ft = 0,
+              !.sentMis = IF HasProof(c.st.db, t) THEN @ \cup {t} ELSE @,
+              !.dev = IF HasProof(c.st.db, t) THEN @ \cup {"S18"} ELSE @]
 
 \* transient failure at time ft: the strategy sleeps (back-off); minb = minimal back-off
 RunFail(c, t, ft, minb) == [c EXCEPT !.rt[t].pc = "fail", !.rt[t].cur = NoLoc, !.rt[t].rep = NoRep, !.rt[t].nf = IF @ < 2 THEN @ + 1 ELSE @,
-                                     !.rt[t].nbf = ft + minb]
+                                     !.rt[t].nbf = ft + minb, !.rt[t].ft = ft]
 
 \* steps of the loop that need no tower
 RunLocal(c, t) ==
@@ -329,6 +355,7 @@ RunLocal(c, t) ==
     ELSE IF r.pc = "loop"
          THEN (IF r.pend = {} THEN {[c EXCEPT !.rt[t].pc = "end_ok"]}
                ELSE IF c.poisoned THEN {RunDies(c, t)}
+               ELSE IF Stopped(c, t) THEN {[c EXCEPT !.rt[t].pc = "end_gone"]}
                ELSE (IF c.up[t] THEN {} ELSE {RunFail(c, t, 0, 0)})
                     \* something that is not pending (any more) is not sent; a body that is gone cannot be (the code
                     \* aborts on it: only reachable after another deviation)
@@ -339,41 +366,47 @@ RunLocal(c, t) ==
                           ELSE {}))
     ELSE {}
 
-RunRegRecv(c, t, minb) ==
+RunRegRecv(c, t, tm) ==
     LET r == c.rt[t] IN
     IF ~Running(c, t) \/ r.pc # "reggot" THEN {}
-    ELSE IF r.rep.cls = "garbage" THEN {RunFail(c, t, r.rep.ts, minb)}
+    ELSE IF r.rep.cls = "garbage" THEN {RunFail(c, t, r.rep.ts, tm.minb)}
     ELSE IF r.rep.cls # "accept" THEN {[c EXCEPT !.rt[t].pc = "end_sub", !.rt[t].rep = NoRep]}
     ELSE IF c.poisoned THEN {RunDies(c, t)}
     ELSE IF ~Known(c, t) \/ RegAccepted(c.st, t, r.rep.slots, r.rep.expiry)
          THEN {[c EXCEPT !.st = RegApply(@, t, r.rep), !.rt[t].pc = "loop", !.rt[t].rep = NoRep]}
          ELSE {[c EXCEPT !.rt[t].pc = "end_sub", !.rt[t].rep = NoRep]}
 
-\* first half of a move: the new record is added (one transaction) ...
+\* first half of a move: the new record is added (one transaction) ...  If the appointment already has a final record
+\* (it is being re-delivered after a kill in the middle of an earlier move, or a duplicate got it there) that one stays.
 RunMoveAdd(c, t, l, kind, slots) ==
-    LET outs == IF ~Known(c, t) THEN {Ok(c.st)}
-                ELSE IF ~SameRow(c.st.db, t, l, kind) THEN {Ok(AddKind(c.st, t, l, kind, slots))}
-                ELSE {Ok(c.st)} \cup (IF Dev("S15") THEN {Poison(c.st)} ELSE {})
+    LET final == Kinds(c.st.db, t, l) \ {"pending"}
+        outs == IF ~Known(c, t) THEN {Ok(c.st)}
+                ELSE IF final = {} THEN {Ok(AddKind(c.st, t, l, kind, slots))}
+                ELSE {Ok(c.st)}
+                     \cup (IF Dev("S15")
+                           THEN (IF SameRow(c.st.db, t, l, kind) THEN {Poison(c.st)}
+                                 ELSE {OkDev(AddKind(c.st, t, l, kind, slots), "S15")})
+                           ELSE {})
     IN {IF o.out = "poison" THEN [RunDies(c, t) EXCEPT !.poisoned = TRUE, !.dev = @ \cup o.dev]
         ELSE [c EXCEPT !.st = o.st, !.rt[t].pc = "got2", !.rt[t].pend = @ \ {l}, !.rt[t].nf = 0,
-                       !.moving = IF Known(c, t) THEN @ \cup {<<t, l>>} ELSE @] : o \in outs}
+                       !.moving = IF Known(c, t) THEN @ \cup {<<t, l>>} ELSE @, !.dev = @ \cup o.dev] : o \in outs}
 
-RunRecv(c, t, minb) ==
+RunRecv(c, t, tm) ==
     LET r == c.rt[t] l == r.cur IN
     IF ~Running(c, t) \/ r.pc # "got" THEN {}
     ELSE CASE r.rep.cls = "accept" -> (IF c.poisoned THEN {RunDies(c, t)} ELSE RunMoveAdd(c, t, l, "accepted", r.rep.slots))
            [] r.rep.cls = "reject" -> (IF c.poisoned THEN {RunDies(c, t)} ELSE RunMoveAdd(c, t, l, "invalid", 0))
            [] r.rep.cls = "sub_error" ->
                 (IF c.poisoned THEN {RunDies(c, t)}
-                 ELSE {[RunFail(c, t, r.rep.ts, minb) EXCEPT !.st = SetStatus(@, t, "subscription_error")]})
+                 ELSE {SetSt(RunFail(c, t, r.rep.ts, tm.minb), t, "subscription_error")})
            [] r.rep.cls = "badsig" -> {[c EXCEPT !.rt[t].pc = "end_misb", !.rt[t].rep = NoRep]}
            [] r.rep.cls = "garbage" ->
-                ({RunFail(c, t, r.rep.ts, minb)}
+                ({RunFail(c, t, r.rep.ts, tm.minb)}
                  \cup (IF Dev("S13") THEN {[c EXCEPT !.rt[t].pc = "loop", !.rt[t].cur = NoLoc, !.rt[t].rep = NoRep,
                                                       !.rt[t].nf = IF @ < 2 THEN @ + 1 ELSE @, !.dev = @ \cup {"S13"}]}
                        ELSE {}))
            [] r.rep.cls = "malsig" ->
-                ({RunFail(c, t, r.rep.ts, minb), [c EXCEPT !.rt[t].pc = "end_misb", !.rt[t].rep = NoRep]}
+                ({RunFail(c, t, r.rep.ts, tm.minb), [c EXCEPT !.rt[t].pc = "end_misb", !.rt[t].rep = NoRep]}
                  \cup (IF Dev("S14") THEN {[RunDies(c, t) EXCEPT !.dev = @ \cup {"S14"}]} ELSE {}))
            [] OTHER -> {}
 
@@ -390,25 +423,28 @@ RunRetry(c, t) ==
     ELSE {[c EXCEPT !.rt[t].pc = "begin", !.rt[t].nf = 0]}
 
 \* the strategy is exhausted: idle, data only on disk, tower shown unreachable
-GiveUp(c, t) ==
+GiveUp(c, t, tm) ==
     IF ~Running(c, t) \/ c.rt[t].pc # "fail" THEN {}
     ELSE IF c.poisoned THEN {RunDies(c, t)}
-    ELSE {[c EXCEPT !.rt[t] = [RetAbsent EXCEPT !.s = "idle"], !.inmap[t] = "idle", !.ntask[t] = @ - 1,
-                    !.st = SetStatus(@, t, "unreachable")]}
+    ELSE {SetSt([c EXCEPT !.rt[t] = [RetAbsent EXCEPT !.s = "idle", !.nbf = c.rt[t].ft + tm.wake],
+                          !.inmap[t] = "idle", !.ntask[t] = @ - 1],
+                t, "unreachable")}
 
 RunEnd(c, t) ==
     LET r == c.rt[t] done == [c EXCEPT !.ntask[t] = @ - 1] IN
     IF ~Running(c, t) \/ r.pc \notin {"end_ok", "end_sub", "end_misb", "end_gone"} THEN {}
     ELSE IF c.poisoned THEN {RunDies(c, t)}
     ELSE CASE r.pc = "end_ok" ->
-                {[done EXCEPT !.st = SetStatus(@, t, "reachable"), !.rt[t].s = "stopped", !.rt[t].pc = "-", !.inmap[t] = "none"]}
+                \* (a stopped retrier with nothing to do is forgotten by the manager: the same as none at all)
+                {SetSt([done EXCEPT !.rt[t] = IF r.pend = {} THEN RetAbsent ELSE [RetAbsent EXCEPT !.s = "stopped", !.pend = r.pend],
+                                    !.inmap[t] = "none"], t, "reachable")}
            [] r.pc = "end_sub" ->
-                {[done EXCEPT !.st = SetStatus(@, t, "subscription_error"), !.rt[t].s = "failed", !.rt[t].pc = "-"]}
+                {SetSt([done EXCEPT !.rt[t] = [RetAbsent EXCEPT !.s = "failed"]], t, "subscription_error")}
            [] r.pc = "end_misb" ->
-                (IF Known(c, t) /\ HasRcpt(c.st.db, t, r.cur) /\ Dev("S15")
+                (IF Known(c, t) /\ (HasRcpt(c.st.db, t, r.cur) \/ HasProof(c.st.db, t)) /\ Dev("S15")
                  THEN {[RunDies(c, t) EXCEPT !.poisoned = TRUE, !.dev = @ \cup {"S15"}]} ELSE {})
-                \cup {[done EXCEPT !.st = FlagMisbehaving(@, t, r.cur), !.rt[t].s = "failed", !.rt[t].pc = "-", !.rt[t].cur = NoLoc]}
-           [] r.pc = "end_gone" -> {[done EXCEPT !.rt[t].s = "failed", !.rt[t].pc = "-"]}
+                \cup {[done EXCEPT !.st = Flag(@, t, r.cur), !.rt[t] = [RetAbsent EXCEPT !.s = "failed"]]}
+           [] r.pc = "end_gone" -> {[done EXCEPT !.rt[t] = [RetAbsent EXCEPT !.s = "failed"]]}
 
 -----------------------------------------------------------------------------
 (* The wire: a request reaches a tower, the tower answers                   *)
@@ -424,10 +460,10 @@ SendSet(c, t, ep, l, seq, now) ==
 
 \* the tower answers the request seq with r (its sender may have been killed meanwhile: then nothing happens)
 ReplySet(c, t, seq, r) ==
-    LET A == {SetNot(c, n, [n EXCEPT !.pc = "got", !.rep = r]) : n \in {x \in c.nots : x.pc = "wait" /\ x.cur = t /\ x.seq = seq}}
-             \cup {SetReg(c, g, [g EXCEPT !.pc = "got", !.rep = r]) : g \in {x \in c.regs : x.pc = "wait" /\ x.t = t /\ x.seq = seq}}
+    LET A == {SetNot(c, n, [n EXCEPT !.pc = "got", !.rep = r, !.seq = 0]) : n \in {x \in c.nots : x.pc = "wait" /\ x.cur = t /\ x.seq = seq}}
+             \cup {SetReg(c, g, [g EXCEPT !.pc = "got", !.rep = r, !.seq = 0]) : g \in {x \in c.regs : x.pc = "wait" /\ x.t = t /\ x.seq = seq}}
              \cup (IF Running(c, t) /\ c.rt[t].pc \in {"wait", "regwait"} /\ c.rt[t].seq = seq
-                   THEN {[c EXCEPT !.rt[t].pc = IF @ = "wait" THEN "got" ELSE "reggot", !.rt[t].rep = r]} ELSE {})
+                   THEN {[c EXCEPT !.rt[t].pc = IF @ = "wait" THEN "got" ELSE "reggot", !.rt[t].rep = r, !.rt[t].seq = 0]} ELSE {})
     IN IF A = {} THEN {c} ELSE A
 
 -----------------------------------------------------------------------------
@@ -472,7 +508,7 @@ Restart(c) ==
 -----------------------------------------------------------------------------
 (* Hidden steps of the client (everything the rig cannot see directly)     *)
 
-Hidden(c, minb) ==
+Hidden(c, tm) ==
     IF ~c.alive THEN {}
     ELSE UNION {NotifySnap(c, n) : n \in {x \in c.nots : x.pc = "new"}}
          \cup UNION {NotifyLocal(c, n) : n \in c.nots}
@@ -480,9 +516,9 @@ Hidden(c, minb) ==
          \cup UNION {RegRefused(c, g) : g \in c.regs}
          \cup UNION {RegRecv(c, g) : g \in c.regs}
          \cup MgrRecv(c)
-         \cup UNION {MgrDrop(c, t) \cup MgrStart(c, t) \cup MgrWake(c, t) \cup RunBegin(c, t) \cup RunLocal(c, t)
-                     \cup RunRegRecv(c, t, minb) \cup RunRecv(c, t, minb) \cup RunMove(c, t) \cup RunRetry(c, t)
-                     \cup GiveUp(c, t) \cup RunEnd(c, t) : t \in Towers}
+         \cup UNION {MgrDrop(c, t) \cup MgrStart(c, t, tm) \cup MgrWake(c, t, tm) \cup RunBegin(c, t) \cup RunLocal(c, t)
+                     \cup RunRegRecv(c, t, tm) \cup RunRecv(c, t, tm) \cup RunMove(c, t) \cup RunRetry(c, t)
+                     \cup GiveUp(c, t, tm) \cup RunEnd(c, t) : t \in Towers}
 
 -----------------------------------------------------------------------------
 (* The properties as predicates on a state                                 *)
@@ -500,7 +536,9 @@ OneLoop(c) == \A t \in Towers : c.ntask[t] <= 1
 NoFlood(c) == \A t \in Towers : c.rt[t].nf <= 1
 EndsUnreachable(c) == \A t \in Towers :
                          (c.alive /\ c.rt[t].s = "idle" /\ Known(c, t) /\ ~c.poisoned) =>
-                            /\ Status(c, t) \in {"unreachable", "temporary_unreachable"}
+                            \* GiveUp leaves it "unreachable"; handlers that were in flight may still report what they
+                            \* saw (no connection, subscription error), nobody reports it reachable
+                            /\ Status(c, t) # "reachable"
                             /\ c.inmap[t] = "idle" /\ c.rt[t].pend = {}
 \* retriers known to the handlers are those of the manager
 MapSound(c) == \A t \in Towers :
